@@ -146,6 +146,14 @@ func (c *Ctx) feeFormulaAs(rule string, f *ssa.Function, ks string) {
 	c.adopt(sub, "R4", rule)
 }
 
+// runAs runs a rule function that reports under rule name `from` and files its obligations under `to`.
+func (c *Ctx) runAs(from, to string, fn func(cc *Ctx)) {
+	sub := NewReport(c.R.Prop, c.R.Tier)
+	cc := &Ctx{P: c.P, V: c.V, R: sub, Opt: c.Opt}
+	fn(cc)
+	c.adopt(sub, from, to)
+}
+
 // adopt copies the obligations of a sub-report, renaming the rule.
 func (c *Ctx) adopt(sub *Report, from, to string) {
 	for _, o := range sub.Obls {
